@@ -16,7 +16,7 @@ RULE = ('shape A: one logical record, full product of kind x type x payload leng
         'between records; shape L: storage unit labels (sequence number x maximum length x spelling x identifier). '
         'Every descriptor is generated once; non-trivial = more than one segment, or a trailer/pad option, or more '
         'than one record, or a label other than the default; outcome = hash of the decoded record list')
-ASSUMPTIONS = ['payloads are small (<= 61 bytes); visible records of the maximum size are not generated, the hop arithmetic is exercised with small records',
+ASSUMPTIONS = ['most payloads are small (<= 61 bytes); shape G adds payloads of 16 k - 70 k bytes spread over several maximum-size visible records',
                'encrypted records carry no pad bytes and no encryption packet (the statement does not say what is returned for them)',
                'checksums are not verified by the reader and are filled with marker bytes']
 BOUNDS = {
@@ -182,6 +182,24 @@ def gen_multi(tier, first_kind, first_L):
                         yield {'shape': 'B', 'recs': [dict(r0), dict(r1), r2]}
 
 
+def gen_giant(tier):
+    """Shape G: payloads of several visible records.  A segment cannot be longer than a visible record holds (16380), so
+    the payload is cut every `chunk` bytes; the producer closes a visible record when the next segment does not fit."""
+    sizes = [16372, 16373, 32744, 40000] if tier == 'quick' else [16371, 16372, 16373, 16376, 32744, 32745, 40000, 70001]
+    for L in sizes:
+        for chunk in (16372, 8190, 1001):
+            cuts = list(range(chunk, L, chunk))
+            n = len(cuts) + 1
+            for pat in ('none', 'tails', 'newvr'):
+                opts = [[0, 0, 0]] * n if pat != 'tails' else [[1, 1, 0]] * n
+                if pat == 'tails' and chunk == 16372:
+                    continue        # a full-size segment has no room for a checksum and a trailing length
+                newvr = [0] + [1 if pat == 'newvr' else 0] * (n - 1)
+                for eflr, typ in ((1, 0), (0, 127)):
+                    rec = {'eflr': eflr, 'type': typ, 'L': L, 'lb': 'coded', 'cuts': cuts, 'opts': opts, 'newvr': newvr}
+                    yield {'shape': 'G', 'recs': [rec, {'eflr': 1, 'type': 1, 'L': 13, 'lb': 'coded'}]}
+
+
 def gen_labels(tier, part):
     """Shape L.  part: index 0..15 partitions the thorough space."""
     body = {'eflr': 1, 'type': 0, 'L': 13, 'lb': 'coded', 'cuts': [6], 'opts': [[0, 0, 0], [0, 1, 0]], 'newvr': [0, 1]}
@@ -212,6 +230,7 @@ def shards(tier):
     out += [{'gen': 'B', 'eflr': int(k[0]), 'type': k[1], 'L': L} for k in [(True, 0), (False, 0), (False, 127), (True, 255)]
             for L in [0, 1, 12, 13, 28]]
     out += [{'gen': 'L', 'part': p} for p in range(16 if tier == 'thorough' else 1)]
+    out += [{'gen': 'G'}]
     return out
 
 
@@ -230,6 +249,8 @@ def run_shard(shard, tier):
         gen = gen_single(tier, bool(shard['eflr']), shard['type'])
     elif shard['gen'] == 'B':
         gen = gen_multi(tier, (bool(shard['eflr']), shard['type']), shard['L'])
+    elif shard['gen'] == 'G':
+        gen = gen_giant(tier)
     else:
         gen = gen_labels(tier, shard['part'])
     for i, case in enumerate(gen):
